@@ -282,10 +282,10 @@ def chk_qrom(rng, tier):
     b = rng.randint(1, 2 if tier == "quick" else 3)
     m = rng.randint(2 ** (c - 1) + 1 if c > 1 else 1, 2 ** c)
     c_extra = 1 if (rng.random() < 0.25 and c < 3) else 0   # documented: extra control wires = most-significant address bits
-    nw = rng.choice([0, 0, 1, b, 2 * b, b + 1])
+    nw = rng.choice([0, 0, 1, b, 2 * b, b + 1, 3 * b, 3 * b])
     clean = rng.random() < 0.6
-    if c + c_extra + b + nw > (6 if tier == "quick" else 8):
-        nw = max(0, (6 if tier == "quick" else 8) - c - c_extra - b)
+    if c + c_extra + b + nw > (7 if tier == "quick" else 9):
+        nw = max(0, (7 if tier == "quick" else 9) - c - c_extra - b)
     lab = labels_for(rng, c + c_extra + b + nw)
     ct = c + c_extra
     control, target, work = lab[:ct], lab[ct:ct + b], lab[ct + b:]
@@ -853,7 +853,7 @@ def chk_trotter(rng, tier):
         return None
     t = rng.uniform(-2, 2)
     n = rng.randint(1, 3)
-    order = rng.choice([1, 2, 2, 4])
+    order = rng.choice([1, 1, 2, 4])
     op = qp.TrotterProduct(Hop, t, n=n, order=order)
     wo = tw
     mats = [c * pauli_word_mat(w) for c, w in zip(coeffs, words)]
@@ -1078,10 +1078,25 @@ def run_rule_ops(op, rule_filter=None):
         params, args, kwargs = _get_decomp_args(op)
         if not rule.is_applicable(**params):
             continue
-        with AnnotatedQueue() as q:
-            rule(*args, **kwargs)
+        try:
+            with AnnotatedQueue() as q:
+                rule(*args, **kwargs)
+        except Exception as e:
+            TRACE_ERRORS.append({"kind": "error", "template": type(op).__name__, "route": "rule:" + nm, "case": repr(op)[:200], "error": f"{type(e).__name__}: {str(e)[:150]}"})
+            continue
         out.append((nm, list(q.queue)))
     return out
+
+
+TRACE_ERRORS = []
+
+
+def legacy_ops(op, name, f):
+    try:
+        return [(name, f())]
+    except Exception as e:
+        TRACE_ERRORS.append({"kind": "error", "template": type(op).__name__, "route": name, "case": repr(op)[:200], "error": f"{type(e).__name__}: {str(e)[:150]}"})
+        return []
 
 
 def traces(rng, tier):
@@ -1096,9 +1111,11 @@ def traces(rng, tier):
         if i == 0:
             n, wires, perm = 5, [0, 1, 2, 3, 4], [4, 2, 0, 1, 3]      # documentation example
         op = qp.Permute(perm, wires=wires)
-        routes_ = [("decomposition()", op.decomposition())] + run_rule_ops(op)
+        routes_ = legacy_ops(op, "decomposition()", op.decomposition) + run_rule_ops(op)
         for nm, ops in routes_:
-            assert all(o.name == "SWAP" for o in ops)
+            if not all(o.name == "SWAP" for o in ops):
+                TRACE_ERRORS.append({"kind": "error", "template": "Permute", "route": nm, "case": repr(op), "error": "emits operators other than SWAP"})
+                continue
             swaps = [[int(o.wires[0]), int(o.wires[1])] for o in ops]
             ok = True
             if n <= 6:
@@ -1117,7 +1134,7 @@ def traces(rng, tier):
             control = list(range(c))
             ops = [qp.RX(0.1 * (k + 1), wires=c) for k in range(K)]
             op = qp.Select(ops, control=control)
-            routes_ = [("decomposition()", op.decomposition())] + run_rule_ops(op, lambda nm: nm == "_select_decomp_multi_control")
+            routes_ = legacy_ops(op, "decomposition()", op.decomposition) + run_rule_ops(op, lambda nm: nm == "_select_decomp_multi_control")
             for nm, dops in routes_:
                 states, idx = [], []
                 for o in dops:
@@ -1130,7 +1147,7 @@ def traces(rng, tier):
     for n in range(1, 7 if tier == "quick" else 10):
         control = list(range(n))
         op = qp.ControlledSequence(qp.RX(1.0, wires=n), control=control)
-        routes_ = [("compute_decomposition(lazy)", op.compute_decomposition(base=op.base, control_wires=op.control, lazy=True))] + run_rule_ops(op)
+        routes_ = legacy_ops(op, "compute_decomposition(lazy)", lambda op=op: op.compute_decomposition(base=op.base, control_wires=op.control, lazy=True)) + run_rule_ops(op)
         for nm, dops in routes_:
             exps, cws = [], []
             for o in dops:
@@ -1154,7 +1171,10 @@ def traces(rng, tier):
         c = rng.randint(1, 3)
         b = rng.randint(1, 2)
         m = rng.randint(2 ** (c - 1) + 1 if c > 1 else 1, 2 ** c)
-        nw = rng.choice([0, b, 2 * b, 3 * b, 3 * b + 1, 7 * b])
+        nw = rng.choice([0, b, 3 * b, 3 * b, 3 * b + 1, 7 * b])
+        if i % 3 == 0:
+            c, b, nw = rng.randint(2, 3), 1, 3            # depth 4 (two swap-control bits) with few enough wires for the matrix oracle
+        m = min(m, 2 ** c) if m > 2 ** (c - 1) else 2 ** c
         control = list(range(c)); target = list(range(c, c + b)); work = list(range(c + b, c + b + nw))
         data = [[rng.randint(0, 1) for _ in range(b)] for _ in range(m)]
         op = qp.QROM(data, control_wires=control, target_wires=target, work_wires=work or None, clean=False)
@@ -1536,12 +1556,12 @@ def part_b(rng, tier):
 
 
 # MAIN
-CHECKS = [("Select", chk_select, 14), ("QROM", chk_qrom, 14), ("Permute", chk_permute, 12), ("FlipSign", chk_flipsign, 10),
-          ("ControlledSequence", chk_ctrlseq, 10), ("QFT", chk_qft, 6), ("AQFT", chk_aqft, 8), ("Reflection", chk_reflection, 14),
-          ("GroverOperator", chk_grover, 8), ("AmplitudeAmplification", chk_ampamp, 14), ("QuantumPhaseEstimation", chk_qpe, 12),
-          ("QuantumMonteCarlo", chk_qmc, 8), ("PrepSelPrep/Qubitization", chk_psp, 16), ("BlockEncode", chk_blockencode, 12),
-          ("FABLE", chk_fable, 12), ("QSVT", chk_qsvt, 20), ("GQSP", chk_gqsp, 12), ("TrotterProduct", chk_trotter, 6),
-          ("ApproxTimeEvolution", chk_ate, 10), ("CommutingEvolution", chk_commuting, 8)]
+CHECKS = [("Select", chk_select, 20), ("QROM", chk_qrom, 24), ("Permute", chk_permute, 16), ("FlipSign", chk_flipsign, 12),
+          ("ControlledSequence", chk_ctrlseq, 14), ("QFT", chk_qft, 8), ("AQFT", chk_aqft, 12), ("Reflection", chk_reflection, 20),
+          ("GroverOperator", chk_grover, 10), ("AmplitudeAmplification", chk_ampamp, 20), ("QuantumPhaseEstimation", chk_qpe, 16),
+          ("QuantumMonteCarlo", chk_qmc, 12), ("PrepSelPrep/Qubitization", chk_psp, 24), ("BlockEncode", chk_blockencode, 16),
+          ("FABLE", chk_fable, 16), ("QSVT", chk_qsvt, 30), ("GQSP", chk_gqsp, 16), ("TrotterProduct", chk_trotter, 12),
+          ("ApproxTimeEvolution", chk_ate, 14), ("CommutingEvolution", chk_commuting, 10)]
 
 
 def corpus(rng, tier):
@@ -1594,7 +1614,13 @@ def main():
         out["solver_fails"] = SOLVER_FAILS
     if "A" in parts:
         t1 = time.time()
-        out["traces"] = traces(random.Random(seed * 104729 + 2), tier)
+        try:
+            out["traces"] = traces(random.Random(seed * 104729 + 2), tier)
+            out["trace_errors"] = TRACE_ERRORS
+        except Exception as e:
+            import traceback
+            out["traces"] = []
+            out["trace_errors"] = TRACE_ERRORS + [{"kind": "error", "template": "trace-harness", "route": "-", "case": traceback.format_exc()[-500:], "error": f"{type(e).__name__}: {str(e)[:150]}"}]
         out["wall"]["traces"] = round(time.time() - t1, 2)
     if "B" in parts:
         t1 = time.time()
